@@ -2,6 +2,14 @@ use vstd::prelude::*;
 verus! {
 //@include frag/std.tpl
 //@include frag/core_modules.tpl
+pub mod common {
+    pub mod bits {
+//@include frag/common_bits.tpl
+    }
+    pub mod function {
+//@include frag/common_function.tpl
+    }
+}
 pub mod decode {
 //@include frag/decode.tpl
 }
